@@ -575,6 +575,9 @@ def pointers_fresh(prog, chk, rid, funcs, floor_note=''):
                                   inst, locstr(node), b.split(':', 1)[-1]))
         if derived_sites:
             chk.analysed(f)
+    if not str(getattr(prog, 'repo', '')).endswith('controls/repo'):
+        positive_control(chk, rid, lambda p_, rec, r_: pointers_fresh(p_, rec, r_, list(p_.functions.values())),
+                         ['control_stale_pointer', 'control_stale_member'])
     return ninst
 
 
@@ -653,6 +656,8 @@ def inflated_length_is_result_length(prog, chk, rid):
                           'the stream holds' % inst)
     if n == 0:
         chk.fail_broken('%s: no repository function calls inflate()' % rid)
+    if not str(getattr(prog, 'repo', '')).endswith('controls/repo'):
+        positive_control(chk, rid, inflated_length_is_result_length, ['control_prefix_sized'])
     return n
 
 
@@ -716,6 +721,9 @@ def environment_independent(prog, chk, rid, floor_functions=20):
     if n < floor_functions:
         chk.fail_broken('%s: only %d repository functions scanned' % (rid, n))
     chk.ok(rid, '%d repository functions call no time-zone / locale / environment dependent C routine' % n, site='env')
+    if not str(getattr(prog, 'repo', '')).endswith('controls/repo'):
+        positive_control(chk, rid, lambda p_, rec, r_: environment_independent(p_, rec, r_, floor_functions=1),
+                         ['control_local_time|calls mktime', 'control_locale_number|calls strtod'])
     return n
 
 
@@ -761,4 +769,79 @@ def bytes_read_unsigned(prog, chk, rid):
         chk.fail_broken('%s: only %d functions scanned' % (rid, n))
     if not hits:
         chk.ok(rid, '%d functions under src/djinterop/engine: no signed byte read through a pointer is widened' % n, site='bytes')
+    if not str(getattr(prog, 'repo', '')).endswith('controls/repo'):
+        positive_control(chk, rid, bytes_read_unsigned, ['control_signed_length'])
     return n
+
+
+# ---- positive controls for rules that expect no report on the library --------------------------------------
+_CONTROL_PROG = []
+
+
+def control_program():
+    """A Program built from sa/controls/repo (one translation unit of deliberately violating functions,
+    parsed with the same front end); cached by the content of the unit."""
+    if _CONTROL_PROG:
+        return _CONTROL_PROG[0]
+    import hashlib
+    import os
+    import pickle
+    from .. import frontend
+    from ..program import Program, TU
+    root = os.path.join(os.path.dirname(os.path.dirname(os.path.abspath(__file__))), 'controls', 'repo')
+    src = os.path.join(root, 'src', 'djinterop', 'engine', 'positive.cpp')
+    with open(src, 'rb') as f:
+        key = hashlib.sha1(f.read() + str(frontend.FORMAT_VERSION).encode()).hexdigest()[:16]
+    outdir = os.path.join(frontend.CACHE, 'control-' + key)
+    pkl = os.path.join(outdir, hashlib.sha1(src.encode()).hexdigest() + '.pkl')
+    if not os.path.exists(pkl):
+        os.makedirs(outdir, exist_ok=True)
+        r = frontend._dump_unit((src, ['-std=gnu++17'], outdir))
+        if r[1] is None:
+            raise AnalysisBroken('positive-control unit does not parse: %s' % (r[2] or '')[-400:])
+    with open(pkl, 'rb') as f:
+        u = pickle.load(f)
+    p = Program.__new__(Program)
+    p.repo = root
+    p.meta = {'units': [{'src': src}]}
+    p.tus = [TU(u['src'], u['tops'])]
+    p.functions, p.by_qualname, p.records, p.enums, p.enum_nodes = {}, {}, {}, {}, {}
+    p.consts, p.var_nodes, p.derived, p.tu_of_node, p.def_by_declloc = {}, {}, {}, {}, {}
+    for tu in p.tus:
+        p._index_tu(tu)
+    p._link_records()
+    _CONTROL_PROG.append(p)
+    return p
+
+
+class _ControlRecorder:
+    def __init__(self):
+        self.hits = []
+
+    def violation(self, rid, key, *a, **k):
+        self.hits.append(key)
+
+    def ok(self, *a, **k):
+        pass
+
+    def analysed(self, *a, **k):
+        pass
+
+    def unknown(self, *a, **k):
+        pass
+
+    def fail_broken(self, *a, **k):
+        pass
+
+
+def positive_control(chk, rid, rule, expected):
+    """Run `rule(control program, recorder, rid)` and demand a report for each function named in `expected`."""
+    p = control_program()
+    rec = _ControlRecorder()
+    rule(p, rec, rid)
+    missing = [e for e in expected if not any(e in h for h in rec.hits)]
+    if missing:
+        chk.fail_broken('%s: the rule no longer reports the positive control(s) %s in sa/controls/repo (it saw: %s)' % (
+            rid, ', '.join(missing), rec.hits[:4]))
+    else:
+        chk.extra.setdefault('positive_controls', {})[rid] = sorted(expected)
